@@ -247,7 +247,9 @@ def evaluate(case, obs):
                 hbi = case["cfg"]["heartbeat_interval_ms"] / 1000.0
                 before = [a for a in c.arrivals if a.client_id == tag and a.api == "heartbeat" and a.reply and
                           a.reply.get("error") in (0, 27) and rb["t"] - 2 * hbi - 0.1 <= a.t_written < rb["t"]]
-                if not hb and before:
+                left = before and any(a.client_id == tag and a.api == "leave" and a.t_written is not None and
+                                      max(x.t_written for x in before) <= a.t_written <= re_["t"] for a in c.arrivals)
+                if not hb and before and not left:
                     out.fail("barrier", "no_heartbeat_during_revoke_callback", {"member": tag, "from": rb["t"], "to": re_["t"],
                                                                                 "session_timeout": sess})
     # ---- revoked_silent / no_stale_data
